@@ -19,6 +19,7 @@ import XzVerif.Lemmas.IndexIterStable
 import XzVerif.Lemmas.IndexTreeBalance
 import XzVerif.Lemmas.FileInfoMain
 import XzVerif.Lemmas.RandomAccessIndex
+import XzVerif.Lemmas.RandomAccessAccept
 import XzVerif.Lemmas.RandomAccessExample
 
 namespace XzVerif.C13
@@ -663,6 +664,24 @@ theorem random_access_sized (E : XzDecode.Env) (ign : Bool) (cap : Nat)
   refine ⟨i, j, x, B, hx, hB, ?_⟩
   intro u hu cap' hcap'
   exact hall cap' (hd.of_usize hu (by omega) (by omega))
+
+/-- **`random_access` is about every file the decoder accepts.**  If `lzma_stream_decoder` with LZMA_CONCATENATED +
+    LZMA_FINISH accepts the bytes `F` (any payload environment with `PayloadLocal` and `PayloadBounded`, both proved for the
+    model of the real decoder), then `F` is `fileOf xs` for a non-empty list of Streams `xs` that meets the Block-level
+    hypotheses of `random_access` (`XStream.Ok`, `SeqFile` for the same capacity), the decoder's output is `fileOut xs` and
+    it consumed the whole file.  (Stream Header, Stream Footer and Index have exactly one encoding; Stream Padding is
+    zeros in multiples of four; the Blocks are the declarative Blocks of the soundness theorem `xz_decode_sound_decl`;
+    the limits of `lzma_index_hash_append` give `Spec.Valid` and the Backward Size bound.)  So `random_access` and
+    `random_access_decode` apply to every accepted file whose description passes the limits `lzma_index_cat` /
+    `lzma_index_stream_padding` and the memory limit impose on the file-info decoder (`Combinable`, `MemOk`). -/
+theorem random_access_accepted (E : XzDecode.Env) (hloc : XzDecode.PayloadLocal E) (hbd : XzDecode.PayloadBounded E)
+    (fl : XzDecode.Flags) (hc : fl.concatenated = true) (F : List UInt8) (cap : Nat)
+    (h : (XzDecode.xzDecode E fl F cap).ret = .streamEnd) :
+    ∃ xs : List RandomAccess.XStream, xs ≠ [] ∧ F = RandomAccess.fileOf xs
+      ∧ (XzDecode.xzDecode E fl F cap).out = RandomAccess.fileOut xs
+      ∧ (XzDecode.xzDecode E fl F cap).consumed = F.length ∧ (∀ x ∈ xs, x.Ok)
+      ∧ RandomAccess.SeqFile E fl.ignoreCheck cap xs :=
+  RandomAccess.accepted_is_described E hloc hbd fl hc F cap h
 
 /-- the hypotheses of `random_access` are satisfiable by the model of the real decoder (`XzEnv.stdEnv`: raw LZMA2 decoder,
     CRC32): a two-Stream file with three Blocks and Stream Padding (Lemmas/RandomAccessExample.lean, kernel evaluation) -/
